@@ -181,13 +181,13 @@ Definition timeout_ok (c : case) : Z := if c_api c =? 0 then c_T c else prop_tim
 Lemma timeout_of_le c : timeout_of c <= timeout_ok c.
 Proof.
   destruct within_property_numbers as [A1 [A2 _]]. unfold timeout_of, timeout_ok.
-  destruct (c_api c =? 0); [lia|]. destruct (c_api c =? 1); assumption.
+  destruct (c_api c =? 0); [lia|]. destruct ((c_api c =? 1) || (c_api c =? 6)); assumption.
 Qed.
 
 Lemma timeout_of_nonneg c : 0 <= c_T c -> 0 <= timeout_of c.
 Proof.
   destruct timeouts_nonneg as [A1 A2]. unfold timeout_of. intros H.
-  destruct (c_api c =? 0); [exact H|]. destruct (c_api c =? 1); assumption.
+  destruct (c_api c =? 0); [exact H|]. destruct ((c_api c =? 1) || (c_api c =? 6)); assumption.
 Qed.
 
 (* the model's result satisfies the result part of the observer *)
@@ -196,14 +196,16 @@ Proof.
   unfold model. cbv zeta. pose proof (ck_of_no_panic (c_ck c)) as NP.
   set (T := timeout_of c). set (d := CmdWaitDelayMs). set (ck := ck_of (c_ck c)) in *.
   destruct (safe_cmd_classify T d ck (c_b c) NP) as [E|[e E]].
-  - destruct (c_api c =? 0); [|destruct (c_api c =? 1); [|destruct (c_api c =? 3)]].
+  - destruct (c_api c =? 0); [|destruct (c_api c =? 6); [|destruct (c_api c =? 1); [|destruct (c_api c =? 3)]]].
     + cbn [fst]. rewrite E. cbn. apply text_eqb_refl.
+    + cbn [fst]. rewrite E. reflexivity.
     + unfold sensor_get_value. cbn [fst]. rewrite E. destruct (c_parse c) as [f|] eqn:P; [|reflexivity].
       destruct (is_finite f) eqn:F; [|reflexivity]. cbn. rewrite P. now apply feqb_refl_finite.
     + unfold fan_set_pwm. cbn [fst]. rewrite E. reflexivity.
     + unfold fan_get_int. cbn [fst]. rewrite E. destruct (c_parse c) as [f|] eqn:P; [|reflexivity].
       cbn. rewrite P. apply Z.eqb_refl.
-  - destruct (c_api c =? 0); [|destruct (c_api c =? 1); [|destruct (c_api c =? 3)]].
+  - destruct (c_api c =? 0); [|destruct (c_api c =? 6); [|destruct (c_api c =? 1); [|destruct (c_api c =? 3)]]].
+    + cbn [fst]. rewrite E. reflexivity.
     + cbn [fst]. rewrite E. reflexivity.
     + unfold sensor_get_value. cbn [fst]. rewrite E. reflexivity.
     + unfold fan_set_pwm. cbn [fst]. rewrite E. reflexivity.
@@ -213,8 +215,8 @@ Qed.
 Lemma model_time c : snd (model c) = r_time (safe_cmd (timeout_of c) CmdWaitDelayMs (ck_of (c_ck c)) (c_b c)).
 Proof.
   unfold model. cbv zeta.
-  destruct (c_api c =? 0); [reflexivity|]. destruct (c_api c =? 1); [reflexivity|].
-  destruct (c_api c =? 3); reflexivity.
+  destruct (c_api c =? 0); [reflexivity|]. destruct (c_api c =? 6); [reflexivity|].
+  destruct (c_api c =? 1); [reflexivity|]. destruct (c_api c =? 3); reflexivity.
 Qed.
 
 Theorem exec_no_false_alarm c : case_wf c -> mismatch c = false -> holdsb c = true.
